@@ -160,10 +160,11 @@ class Config(object):
         self.rules = rules or []            # see classmodel
         self.use_class = use_class or bool(rules)
         self.omit_xquery = False            # True: render no iauth_xquery section at all
+        self.modules = None                 # explicit `modules ( ... )` list (order matters to the loader, not to the properties)
 
     def text(self, moddir):
         import classmodel
-        return daemon.default_conf(moddir, modules=("iauth_class",) if self.use_class else ("iauth_xquery",),
+        return daemon.default_conf(moddir, modules=self.modules or (("iauth_class",) if self.use_class else ("iauth_xquery",)),
                                    timeout=self.timeout, services=(None if self.omit_xquery else self.services),
                                    rules_text=classmodel.render_rules(self.rules) if self.rules else "")
 
@@ -174,11 +175,17 @@ class Config(object):
         return None
 
     def to_json(self):
-        return {"services": self.services, "timeout": self.timeout, "rules": self.rules, "use_class": self.use_class}
+        d = {"services": self.services, "timeout": self.timeout, "rules": self.rules, "use_class": self.use_class}
+        if self.modules:
+            d["modules"] = list(self.modules)
+        return d
 
     @staticmethod
     def from_json(d):
-        return Config([tuple(x) for x in d["services"]], d["timeout"], d.get("rules"), d.get("use_class", False))
+        c = Config([tuple(x) for x in d["services"]], d["timeout"], d.get("rules"), d.get("use_class", False))
+        if d.get("modules"):
+            c.modules = tuple(d["modules"])
+        return c
 
 
 class Trace(object):
@@ -227,6 +234,7 @@ class Session(object):
             if ev["t"] == "reload":
                 newcfg = Config([tuple(x) for x in ev["services"]], self.config.timeout,
                                 ev["rules"] if ev.get("rules") is not None else self.config.rules, self.config.use_class)
+                newcfg.modules = self.config.modules
                 out = self.d.reload(newcfg.text(self.d.build["moddir"]))
                 out = [l for l in out if not l.startswith("#verif")]
                 self.config = newcfg
